@@ -25,6 +25,7 @@ const (
 	TInt
 	TIface
 	TSlice
+	TBasic // the predeclared int
 )
 
 type NodeSpec struct {
@@ -34,7 +35,21 @@ type NodeSpec struct {
 	Cleanup  bool
 	Lib      bool // type and provider live in the lib package
 	Variadic bool // NFunc: the last dependency (a slice-typed node) is taken as a variadic parameter
+	Provide  int  // NFunc: near-miss mode, what the provider returns instead of the node type (see Near* constants)
 }
+
+// Near-miss modes: consumers need the node type T, the provider returns something close.
+const (
+	NearExact       = iota
+	NearPointerOf   // provider returns *T
+	NearElemOf      // node type is *L, provider returns L
+	NearImplNoBind  // node type is an interface, provider returns an implementing concrete type, no binding
+	NearUnderlying  // node type is a named int, provider returns the predeclared int
+	NearNamed       // node type is the predeclared int, provider returns a named int
+	NearAlias       // provider returns an alias of T (identical type: must stay accepted)
+	NearOtherNamed  // node type is a named int, provider returns another named int with the same underlying type
+	nNearModes
+)
 
 // GraphSpec describes a provider graph: Adj[i] lists the nodes node i depends on.
 type GraphSpec struct {
@@ -46,7 +61,10 @@ type GraphSpec struct {
 	InjMore    bool // injector declares error and cleanup results whether needed or not
 	Split      bool // the items of lib nodes go to a named set declared in the lib package, included by the main set
 	Hist       int
+	Drop       int // 1-based index into the flattened item list of the item to leave out (0 = none)
+	NItems     int // set by Build: number of items before dropping
 	ExtraItems func(b *ir.Builder, types []*ir.Type) []*ir.Item
+	custom     func(b *ir.Builder) *ir.Program // hand-shaped program (ignores the graph fields)
 }
 
 func shapeType(b *ir.Builder, p *ir.Pkg, name string, tk int) *ir.Type {
@@ -59,6 +77,8 @@ func shapeType(b *ir.Builder, p *ir.Pkg, name string, tk int) *ir.Type {
 		return b.Iface(p, name)
 	case TSlice:
 		return ir.Slice(b.Leaf(p, name))
+	case TBasic:
+		return ir.BasicInt()
 	}
 	return b.Leaf(p, name)
 }
@@ -66,6 +86,9 @@ func shapeType(b *ir.Builder, p *ir.Pkg, name string, tk int) *ir.Type {
 // Build renders the spec into an IR program. It returns the program and the node types.
 func (g *GraphSpec) Build() (*ir.Program, []*ir.Type) {
 	b := ir.NewBuilder()
+	if g.custom != nil {
+		return g.custom(b), nil
+	}
 	p := b.Root
 	n := g.N
 	types := make([]*ir.Type, n)
@@ -112,7 +135,24 @@ func (g *GraphSpec) Build() (*ir.Program, []*ir.Type) {
 		switch nd.Kind {
 		case NFunc:
 			variadic := nd.Variadic && len(deps) > 0 && deps[len(deps)-1].Kind == ir.KSlice
-			items = append(items, ir.FuncItem(&ir.Func{Pkg: p, Name: fmt.Sprintf("P%d", i), Params: deps, Out: types[i], Err: nd.Err, Cleanup: nd.Cleanup, Variadic: variadic}))
+			out := types[i]
+			switch nd.Provide {
+			case NearPointerOf:
+				out = ir.Ptr(types[i])
+			case NearElemOf:
+				out = types[i].Elem
+			case NearImplNoBind:
+				conc := b.Leaf(p, fmt.Sprintf("Impl%d", i))
+				conc.Impls = []*ir.Type{types[i]}
+				out = conc
+			case NearUnderlying:
+				out = ir.BasicInt()
+			case NearNamed, NearOtherNamed:
+				out = b.Int(p, fmt.Sprintf("Other%d", i))
+			case NearAlias:
+				out = b.Alias(p, fmt.Sprintf("Alias%d", i), types[i])
+			}
+			items = append(items, ir.FuncItem(&ir.Func{Pkg: p, Name: fmt.Sprintf("P%d", i), Params: deps, Out: out, Err: nd.Err, Cleanup: nd.Cleanup, Variadic: variadic}))
 		case NStruct, NStructV:
 			agg := types[i]
 			if agg.Kind == ir.KPtr {
@@ -156,8 +196,13 @@ func (g *GraphSpec) Build() (*ir.Program, []*ir.Type) {
 	if g.Split && len(items2) > 0 {
 		items = append(items, ir.SetRef(&ir.Set{Pkg: b.Lib, Name: "LibSet", Items: items2}))
 	}
+	g.NItems = len(items)
+	if g.Drop > 0 && g.Drop <= len(items) {
+		items = append(append([]*ir.Item{}, items[:g.Drop-1]...), items[g.Drop:]...)
+	}
+	var extra []*ir.Item
 	if g.ExtraItems != nil {
-		items = append(items, g.ExtraItems(b, types)...)
+		extra = g.ExtraItems(b, types)
 	}
 	inj := &ir.Injector{Name: "Init", Out: types[g.Root], Params: params}
 	if g.InSet {
@@ -165,6 +210,7 @@ func (g *GraphSpec) Build() (*ir.Program, []*ir.Type) {
 	} else {
 		inj.Items = items
 	}
+	inj.Items = append(inj.Items, extra...) // extra items are always direct wire.Build arguments
 	// exact injector shape: what the needed closure requires (decided by the model), or more
 	if g.InjMore {
 		inj.Err, inj.Cleanup = true, true
